@@ -86,7 +86,8 @@ type fieldDef struct {
 
 type metricDef struct {
 	Name    string     `json:"name"`
-	TagKeys []string   `json:"tagKeys"`
+	TagKeys []string   `json:"tagKeys"` // union of the tag keys of the metric's series (sorted)
+	Ragged  bool       `json:"raggedTags"`
 	Fields  []fieldDef `json:"fields"`
 }
 
@@ -119,11 +120,9 @@ func genDataset(t *rapid.T) *dataset {
 	nMetrics := rapid.SampledFrom([]int{1, 1, 1, 2, 2, 3}).Draw(t, "nMetrics")
 	for m := 0; m < nMetrics; m++ {
 		md := metricDef{Name: []string{"cpu", "mem", "disk"}[m]}
-		if rapid.IntRange(0, 2).Draw(t, "twoTagKeys") > 0 {
-			md.TagKeys = []string{"host", "zone"}
-		} else {
-			md.TagKeys = []string{"host"}
-		}
+		md.TagKeys = [][]string{{"host"}, {"host", "zone"}, {"host", "zone"}, {"dc", "host"}, {"dc", "host", "zone"}}[rapid.IntRange(0, 4).Draw(t, "tagKeys")]
+		// half of the metrics have series with different tag key sets (legal: a series is its tag set)
+		md.Ragged = len(md.TagKeys) > 1 && rapid.Bool().Draw(t, "raggedTags")
 		nf := rapid.IntRange(1, 4).Draw(t, "nFields")
 		perm := rapid.Permutation(fieldPool).Draw(t, "fieldPick")
 		md.Fields = append(md.Fields, perm[:nf]...)
@@ -138,12 +137,28 @@ func genDataset(t *rapid.T) *dataset {
 			m = rapid.IntRange(0, nMetrics-1).Draw(t, "seriesMetric")
 		}
 		md := d.Metrics[m]
+		carried := md.TagKeys
+		if md.Ragged && rapid.IntRange(0, 9).Draw(t, "allTagKeys") < 5 {
+			// a series that carries only some of the metric's tag keys (at least one)
+			carried = nil
+			for _, k := range md.TagKeys {
+				if rapid.Bool().Draw(t, "hasTagKey") {
+					carried = append(carried, k)
+				}
+			}
+			if len(carried) == 0 {
+				carried = []string{rapid.SampledFrom(md.TagKeys).Draw(t, "oneTagKey")}
+			}
+		}
 		tags := map[string]string{}
-		for _, k := range md.TagKeys {
-			if k == "host" {
+		for _, k := range carried {
+			switch k {
+			case "host":
 				tags[k] = fmt.Sprintf("h%d", rapid.IntRange(0, 7).Draw(t, "host"))
-			} else {
+			case "zone":
 				tags[k] = rapid.SampledFrom([]string{"za", "zb", "zc"}).Draw(t, "zone")
+			default:
+				tags[k] = rapid.SampledFrom([]string{"east", "west"}).Draw(t, "dc")
 			}
 		}
 		key := md.Name + "|" + seriesKey(tags)
@@ -300,8 +315,9 @@ func (c *cond) text() string {
 	}
 }
 
-// eval: the documented meaning of the tag filter on a series that carries the key (every series
-// of a generated metric carries all of the metric's tag keys).
+// eval: the meaning of the tag filter. A series that does not carry the key of an atom is not
+// selected by the atom, negated or not (index semantics: a negated atom is "all series that have the
+// key" minus the matching ones; same reading as C10).
 func (c *cond) eval(tags map[string]string) bool {
 	switch c.Op {
 	case "and":
@@ -309,7 +325,10 @@ func (c *cond) eval(tags map[string]string) bool {
 	case "or":
 		return c.L.eval(tags) || c.R.eval(tags)
 	}
-	v := tags[c.Key]
+	v, has := tags[c.Key]
+	if !has {
+		return false
+	}
 	in := false
 	for _, x := range c.Values {
 		if x == v {
@@ -427,8 +446,10 @@ func genCondLeaf(t *rapid.T, d *dataset, mi int, md metricDef) *cond {
 	if len(pool) > 0 {
 	} else if key == "host" {
 		pool = []string{"h0", "h1", "h2", "h3", "h4", "h5", "h6", "h7", "h9"} // h9 is never written
-	} else {
+	} else if key == "zone" {
 		pool = []string{"za", "zb", "zc", "zz"} // zz is never written
+	} else {
+		pool = []string{"east", "west", "north"} // north is never written
 	}
 	op := rapid.SampledFrom([]string{"=", "=", "!=", "in", "in", "not in"}).Draw(t, "condOp")
 	c := &cond{Op: op, Key: key}
@@ -537,6 +558,10 @@ func genQuery(t *rapid.T, d *dataset, group string) *querySpec {
 		q.GroupBy = []string{rapid.SampledFrom(md.TagKeys).Draw(t, "groupKey")}
 	default:
 		q.GroupBy = append([]string{}, md.TagKeys...)
+		if len(q.GroupBy) == 3 && rapid.Bool().Draw(t, "groupTwoOfThree") {
+			drop := rapid.IntRange(0, 2).Draw(t, "groupDrop")
+			q.GroupBy = append(q.GroupBy[:drop:drop], q.GroupBy[drop+1:]...)
+		}
 	}
 	return q
 }
@@ -568,7 +593,10 @@ type feed struct {
 // evalModel computes, from the written points only, which cells the answer has, their values,
 // and which first/last cells depend on an order no document fixes. Each (series, storage slot) holds
 // one written value, so a cell's value is the aggregate of the values of the points it covers.
-func evalModel(d *dataset, q *querySpec) *modelOut {
+func evalModel(d *dataset, q *querySpec) *modelOut { return evalModelOn(d, q, nil) }
+
+// evalModelOn is evalModel over the series the filter accepts (nil: all).
+func evalModelOn(d *dataset, q *querySpec, only func(series int) bool) *modelOut {
 	out := &modelOut{exact: map[cell]float64{}, present: map[cell]bool{}, ambiguous: map[cell][]float64{}}
 	if q.Metric < 0 {
 		return out
@@ -607,9 +635,21 @@ func evalModel(d *dataset, q *querySpec) *modelOut {
 			if slotStart < start || slotStart > end {
 				continue
 			}
+			if only != nil && !only(p.Series) {
+				continue
+			}
 			gtags := map[string]string{}
+			grouped := true
 			for _, k := range q.GroupBy {
-				gtags[k] = sd.Tags[k]
+				v, has := sd.Tags[k]
+				if !has {
+					grouped = false
+				}
+				gtags[k] = v
+			}
+			if !grouped {
+				// a series that lacks one of the grouping keys belongs to no group
+				continue
 			}
 			key := seriesKey(gtags)
 			ts := start + (slotStart-start)/iv*iv
